@@ -100,7 +100,7 @@ pub fn property() -> Property {
             name: "overflow",
             rule: "MultiProgress on terminals from 1x1 to 12x40 (thorough 40x200) with up to 8 single-line bars whose width sits at k*W-2..k*W+2 (1-4 rows each), ops add/remove/tick/inc/set_message/finish/finish_and_clear/drop/println/clear so that the frame crosses the terminal height in both directions; at every flush the screen must equal log ++ retained blocks ++ the longest fitting prefix of the bar lines, and move_cursor_up never exceeds rows-1; non-trivial = a line wraps and the frame exceeded the height at least once",
             strategy: geo_strategy,
-            cases: |t| t.pick(4_000, 200_000),
+            cases: |t| t.pick(4_000, 800_000),
             run: run_geo,
             signature: crate::props::c02::signature,
             essential: &["line_wraps", "frame_taller_than_terminal", "fits_again_after_overflow", "one_row_or_one_column", "log_lines"],
